@@ -299,6 +299,28 @@ func (c *Ctx) oauthPIDCodec(rule string) {
 			sep, _ = constArgStr(call, 1)
 		}
 	}
+	// the reader may take the identifier apart with two strings.Cut calls
+	var cut1, cut2 ssa.CallInstruction
+	if sep == "" {
+		for _, call := range CallsTo(ps, "strings.Cut") {
+			s1, _ := constArgStr(call, 1)
+			if s1 == "" {
+				continue
+			}
+			if _, isParam := Arg(call, 0).(*ssa.Parameter); isParam {
+				cut1, sep = call, s1
+			}
+		}
+		for _, call := range CallsTo(ps, "strings.Cut") {
+			s2, _ := constArgStr(call, 1)
+			if cut1 != nil && call != cut1 && s2 == sep && resolvesTo(Arg(call, 0), ResultValue(cut1, 1), 0) {
+				cut2 = call
+			}
+		}
+		if cut1 == nil || cut2 == nil {
+			sep = ""
+		}
+	}
 	if format == "" || sep == "" {
 		r.Unknown(rule, FuncName(mk), "format/separator", "-", "writer format or reader separator not constant")
 		return
@@ -406,6 +428,36 @@ func (c *Ctx) oauthPIDCodec(rule string) {
 		r.Unknown(rule, pn, "success exit", "-", "no return with a nil error found in the reader")
 	}
 	for _, ex := range exits {
+		if cut2 != nil {
+			fs := ex.fs
+			pos := ex.pos
+			// found twice and no third separator: exactly the writer's three segments
+			okFound := HasFact(fs, func(f Fact) bool {
+				rel := f.Rel()
+				return rel.B != nil && rel.Pol && resolvesTo(rel.B, ResultValue(cut2, 2), 0)
+			})
+			okNoMore := HasFact(fs, func(f Fact) bool {
+				rel := f.Rel()
+				if rel.B == nil || rel.Pol {
+					return false
+				}
+				call, _ := CallOf(rel.B)
+				if call == nil || Callee(call) != "strings.Contains" {
+					return false
+				}
+				s2, _ := constArgStr(call, 1)
+				return s2 == sep && resolvesTo(Arg(call, 0), ResultValue(cut2, 1), 0)
+			})
+			r.Check(okFound && okNoMore, rule, pn, "len(segments)==3", pos, "accepts exactly the writer's number of segments (two cuts found, no separator left in the uid)", "reader accepts a pid whose number of segments differs from what the writer produces: a uid containing the separator decodes to a different (provider, uid) pair than the one encoded")
+			okPrefix := HasFact(fs, func(f Fact) bool {
+				rel := f.Rel()
+				s, isC := ConstStr(rel.Y)
+				return isC && s == parts[0] && rel.Op == token.EQL && resolvesTo(rel.X, ResultValue(cut1, 0), 0)
+			})
+			r.Check(okPrefix, rule, pn, "segments[0]==prefix", pos, "demands the writer's prefix", "reader does not demand the writer's prefix "+parts[0])
+			r.Check(resolvesTo(ex.prov, ResultValue(cut2, 0), 0) && resolvesTo(ex.id, ResultValue(cut2, 1), 0), rule, pn, "returns segments[1], segments[2]", pos, "provider and uid in the writer's order", "reader returns the segments in a different order than the writer wrote them")
+			continue
+		}
 		{
 			fs := ex.fs
 			pos := ex.pos
@@ -424,6 +476,39 @@ func (c *Ctx) oauthPIDCodec(rule string) {
 			r.Check(indexConst(ex.prov) == 1 && indexConst(ex.id) == 2, rule, pn, "returns segments[1], segments[2]", pos, "provider and uid in the writer's order", "reader returns the segments in a different order than the writer wrote them")
 		}
 	}
+}
+
+// resolvesTo: v is target, possibly behind joins whose other ways of arriving
+// contribute a zero constant or a flag known to be false on that way.
+func resolvesTo(v, target ssa.Value, d int) bool {
+	if v == nil || target == nil || d > 3 {
+		return false
+	}
+	if v == target {
+		return true
+	}
+	phi, ok := v.(*ssa.Phi)
+	if !ok {
+		return false
+	}
+	some := false
+	for i, e := range phi.Edges {
+		if resolvesTo(e, target, d+1) {
+			some = true
+			continue
+		}
+		if k, isC := e.(*ssa.Const); isC && (k.Value == nil || k.Value.String() == `""` || k.Value.String() == "false") {
+			continue
+		}
+		if HasFact(FactsAtEdge(phi.Block().Preds[i], phi.Block()), func(f Fact) bool {
+			rel := f.Rel()
+			return rel.B == e && !rel.Pol
+		}) {
+			continue
+		}
+		return false
+	}
+	return some
 }
 
 // indexConst: v is a load of x[k] with constant k; returns k or -1.
